@@ -179,6 +179,34 @@ theorem table_roundtrip_sep (sep : UInt8) (hs : SniffSep sep) (wdec : UInt8) (ty
     simp only [List.length_append, List.length_cons] at this ⊢
     omega
 
+/-! ## rows handed over as array `Var`s, any separator -/
+
+theorem putArraysG (sep dec : UInt8) (w : WState) (rows : List (List Cell)) (hw : w.row = [])
+    (hrows : ∀ r ∈ rows, r.length = w.ncols) :
+    ((rows.map WItem.arr).foldl (putItemG sep dec) w).text = w.text ++ rowsOutG sep dec w.dataStarted rows := by
+  induction rows generalizing w with
+  | nil => simp [rowsOutG]
+  | cons r t ih =>
+    have h1 : (r.length == w.ncols) = true := by simpa using hrows r (by simp)
+    simp only [List.map_cons, List.foldl_cons, putItemG, putArrayG, h1, if_true]
+    rw [ih { w with text := (w.text ++ if w.dataStarted = true then [] else [10]) ++ rowTextG sep dec r ++ [10],
+                    row := [], dataStarted := true } rfl (fun r' hr' => hrows r' (by simp [hr']))]
+    simp [rowsOutG, rowOutG, List.append_assoc]
+
+/-- a table written row by row as arrays is the same file as the table written cell by cell, whatever the
+    separator and the decimal symbol -/
+theorem writeItemsG_arrays (sep dec : UInt8) (cols : List Bytes) (rows : List (List Cell))
+    (hrows : ∀ r ∈ rows, r.length = cols.length ∧ r ≠ [] ∧ ∀ c ∈ r, (c == Cell.str [10]) = false) :
+    writeItemsG sep dec cols (rows.map WItem.arr) = writeItemsG sep dec cols (rows.flatten.map .cell) := by
+  have hfold : ∀ (l : List Cell) (w : WState), (l.map WItem.cell).foldl (putItemG sep dec) w = l.foldl (putCellG sep dec) w := by
+    intro l
+    induction l with
+    | nil => intro w; rfl
+    | cons x t ih => intro w; simp only [List.map_cons, List.foldl_cons, putItemG, ih]
+  unfold writeItemsG
+  rw [putArraysG sep dec (startTableG sep cols) rows rfl (fun r hr => (hrows r hr).1), hfold,
+    putRowsG sep dec (startTableG sep cols) rows rfl hrows]
+
 /-! ## the hypotheses of `table_roundtrip_sep` from conditions on the cells -/
 
 theorem cellOK_ne_newline (sep : UInt8) (x : Cell) (h : CellOK sep x) : (x == Cell.str [10]) = false := by
